@@ -2,9 +2,35 @@
   C08 — stream samples reach every subscriber exactly once and in device order.
   Property theorems only (helper lemmas in Lemmas/Fanout.lean)
   `Fanout.lean` is organised like the code (per channel: list of subscribed queues; a frame is
-  fanned out channel by channel).  The specification below is organised per queue and is as simple
-  as possible: a queue is subscribed to at most one channel and, for every frame processed while it
-  is subscribed and the channel is enabled, receives that frame's samples of the channel, in order.
+  fanned out channel by channel; an exception in the stream thread ends it).  The specification below
+  is organised per queue and is as simple as possible: a queue is subscribed to at most one channel
+  and, for every frame PROCESSED while it is subscribed and the channel is enabled, receives that
+  frame's samples of the channel, in order; a frame the decoder rejects ends all delivery until the
+  stream is restarted.
+
+  WHAT IS PROVED, WHAT IS LEFT TO THE CORRESPONDENCE CHECK (K).
+  * Proved, over all histories (op lists, see the linearisation paragraph in `Fanout.lean`):
+    `queue_is_run` / `queue_is_run_en` (every queue holds exactly the specification's run),
+    `run_since_subscription` (gap-free, duplicate-free, in order since the subscription, as long as
+    the frames are well-formed for the device), `delivery_until_first_bad` and `dead_stops_delivery`
+    (what a frame the decoder rejects does: R-C08-2), `no_leak`, `empty_frames_neutral`,
+    `frame_split` (the enabled test is per sample: splitting a frame changes no queue content),
+    `sub_negative_index`.
+  * Proved, over all interleavings of the receive thread, the stream thread's loop iterations and the
+    application's calls (`Fanout.Sys`): `sys_fan_is_run` + `sys_fifo` (the stream thread processes
+    exactly a prefix of what the receive thread routed to `_q_stream`, in that order — Route ∘ Fanout),
+    `iter_consumes` / `drain` (progress: a live stream thread consumes the oldest queued frame in its
+    next iteration, hence `_q_stream.length` iterations empty the queue), `end_to_end_delivery` and
+    `end_to_end_wire` ("every such sample is eventually delivered": once the queue has been drained —
+    which `drain` guarantees after finitely many iterations — the subscriber has received exactly the
+    channel's samples of the backlog and of every stream frame received since, in device order).
+  * Left to K (harness/props/C08.py): that the real thread really iterates (fairness of the OS
+    scheduler; `Worker`/C13 proves the loop calls its target again while no stop is requested and the
+    target returns), that `queue.Queue` is FIFO and `Lock` excludes (CPython), that the hand-written
+    `step`/`sysStep` agree with `_stream_thread`, `stream_sub`, `stream_unsub`, `stream_start`,
+    `stream_stop` on generated histories (real thread under the virtual-time runtime, including frames
+    that kill it, frames in flight at subscribe time, stop/start with a backlog, channels enabled at
+    connect), and that a stalled stream thread is waited for by `stream_stop` (no second thread).
 -/
 import NxsModel.Route
 import NxsModel.Gen.CfgShape
@@ -22,20 +48,30 @@ structure QSpec where
 structure Spec where
   enabled : List Bool
   qs : List QSpec           -- index = queue id (order of subscription)
+  dead : Bool := false      -- a frame the decoder rejects has been taken: nothing is processed any more
   deriving DecidableEq, Repr
 
-def Spec.init (n : Nat) : Spec := ⟨List.replicate n false, []⟩
+def Spec.init (n : Nat) : Spec := ⟨List.replicate n false, [], false⟩
+def Spec.initEn (en : List Bool) : Spec := ⟨en, [], false⟩
+
+/-- what a processed frame does to one queue of the specification -/
+def qFrame (en : List Bool) (ss : List Smp) (q : QSpec) : QSpec :=
+  match q.sub with
+  | some c => if en.getD c false then { q with got := q.got ++ (ss.filter (·.chan = c)).map (·.val) } else q
+  | none => q
 
 def specStep (s : Spec) : Op → Spec
   | .frame _ ss =>
-    if ss.any (fun x => x.chan ≥ s.enabled.length) then s
-    else { s with qs := s.qs.map fun q =>
-      match q.sub with
-      | some c => if s.enabled.getD c false then { q with got := q.got ++ (ss.filter (·.chan = c)).map (·.val) } else q
-      | none => q }
+    if s.dead then s
+    else if ss.any (fun x => x.chan ≥ s.enabled.length) then { s with dead := true }
+    else { s with qs := s.qs.map (qFrame s.enabled ss) }
+  | .badFrame => { s with dead := true }
   | .sub ch => if ch < s.enabled.length then { s with qs := s.qs ++ [⟨some ch, []⟩] } else s
+  | .subNeg k =>
+    if k < s.enabled.length then { s with qs := s.qs ++ [⟨some (s.enabled.length - 1 - k), []⟩] } else s
   | .unsub k => { s with qs := s.qs.mapIdx fun i q => if i = k then { q with sub := none } else q }
   | .setEnabled v => if v.length = s.enabled.length then { s with enabled := v } else s
+  | .restart => { s with dead := false }
 
 def specRun (s : Spec) : List Op → Spec
   | [] => s
@@ -47,16 +83,19 @@ Spec-dependent helper lemmas (the specification is defined in this file, so they
 `Lemmas/Fanout.lean`).  The property theorems follow below under "property theorems". -/
 section Proofs
 
-/-- what a frame does to one queue of the specification -/
-def qFrame (en : List Bool) (ss : List Smp) (q : QSpec) : QSpec :=
-  match q.sub with
-  | some c => if en.getD c false then { q with got := q.got ++ (ss.filter (·.chan = c)).map (·.val) } else q
-  | none => q
+theorem specStep_frame_dead {sp : Spec} (fl : Nat) (ss : List Smp) (hd : sp.dead = true) :
+    specStep sp (.frame fl ss) = sp := by
+  rw [specStep, if_pos hd]
 
-theorem specStep_frame (sp : Spec) (fl : Nat) (ss : List Smp) :
-    specStep sp (.frame fl ss) =
-      if ss.any (fun x => x.chan ≥ sp.enabled.length) then sp
-      else { sp with qs := sp.qs.map (qFrame sp.enabled ss) } := rfl
+theorem specStep_frame_bad {sp : Spec} (fl : Nat) (ss : List Smp) (hd : sp.dead = false)
+    (h : ss.any (fun x => x.chan ≥ sp.enabled.length) = true) :
+    specStep sp (.frame fl ss) = { sp with dead := true } := by
+  rw [specStep, if_neg (by simp [hd]), if_pos h]
+
+theorem specStep_frame_good {sp : Spec} (fl : Nat) (ss : List Smp) (hd : sp.dead = false)
+    (h : ss.any (fun x => x.chan ≥ sp.enabled.length) = false) :
+    specStep sp (.frame fl ss) = { sp with qs := sp.qs.map (qFrame sp.enabled ss) } := by
+  rw [specStep, if_neg (by simp [hd]), if_neg (by simp [h])]
 
 theorem qFrame_sub (en : List Bool) (ss : List Smp) (q : QSpec) : (qFrame en ss q).sub = q.sub := by
   unfold qFrame
@@ -73,6 +112,17 @@ theorem qFrame_got (en : List Bool) (ss : List Smp) (q : QSpec) :
     split <;> simp
   · simp
 
+theorem qFrame_append (en : List Bool) (a b : List Smp) (q : QSpec) :
+    qFrame en (a ++ b) q = qFrame en b (qFrame en a q) := by
+  obtain ⟨sub, got⟩ := q
+  cases sub with
+  | none => rfl
+  | some c =>
+    simp only [qFrame]
+    by_cases he : en.getD c false = true
+    · simp only [he, if_true, List.filter_append, List.map_append, List.append_assoc]
+    · simp only [he, Bool.false_eq_true, if_false]
+
 theorem specRun_append (sp : Spec) (a b : List Op) : specRun sp (a ++ b) = specRun (specRun sp a) b := by
   induction a generalizing sp with
   | nil => rfl
@@ -88,6 +138,19 @@ structure Inv (n : Nat) (s : St) (sp : Spec) : Prop where
   cnt : ∀ c, c < n → ∀ q,
     (s.subs.getD c []).count q = if sp.qs[q]?.bind (·.sub) = some c then 1 else 0
   rcv : ∀ q, received s q = (sp.qs[q]?.map (·.got)).getD []
+  dead : s.dead = sp.dead
+
+theorem inv_initEn (en : List Bool) : Inv en.length (St.initEn en) (Spec.initEn en) where
+  en := rfl
+  enLen := rfl
+  subsLen := by simp [St.initEn]
+  nextQ := rfl
+  ids := rfl
+  cnt := by
+    intro c hc q
+    simp [St.initEn, Spec.initEn, List.getD_eq_getElem?_getD, hc]
+  rcv := by intro q; simp [received, St.initEn, Spec.initEn]
+  dead := rfl
 
 theorem inv_init (n : Nat) : Inv n (St.init n) (Spec.init n) where
   en := rfl
@@ -99,14 +162,18 @@ theorem inv_init (n : Nat) : Inv n (St.init n) (Spec.init n) where
     intro c hc q
     simp [St.init, Spec.init, List.getD_eq_getElem?_getD, hc]
   rcv := by intro q; simp [received, St.init, Spec.init]
+  dead := rfl
 
-theorem inv_frame {n : Nat} {s s' : St} {sp : Spec} {fl : Nat} {ss : List Smp} (hI : Inv n s sp)
-    (h : step s (.frame fl ss) = .ok s') : Inv n s' (specStep sp (.frame fl ss)) := by
-  obtain ⟨hany, rfl⟩ := step_frame_ok h
-  have hsp : specStep sp (.frame fl ss) = { sp with qs := sp.qs.map (qFrame sp.enabled ss) } := by
-    rw [specStep_frame, ← hI.en, hany]; rfl
-  rw [hsp]
-  refine ⟨hI.en, hI.enLen, hI.subsLen, ?_, ?_, ?_, ?_⟩
+/-- the thread-death bit is independent of everything else -/
+theorem inv_setDead {n : Nat} {s : St} {sp : Spec} (hI : Inv n s sp) (b : Bool) :
+    Inv n { s with dead := b } { sp with dead := b } :=
+  ⟨hI.en, hI.enLen, hI.subsLen, hI.nextQ, hI.ids, hI.cnt, hI.rcv, rfl⟩
+
+theorem inv_frame_good {n : Nat} {s : St} {sp : Spec} (fl : Nat) {ss : List Smp} (hI : Inv n s sp) :
+    Inv n { s with ovf := if fl % 2 = 1 then s.ovf + 1 else s.ovf,
+                   queues := fanout s.enabled s.subs ss 0 s.enabled.length s.queues }
+      { sp with qs := sp.qs.map (qFrame sp.enabled ss) } := by
+  refine ⟨hI.en, hI.enLen, hI.subsLen, ?_, ?_, ?_, ?_, hI.dead⟩
   · show s.nextQ = (sp.qs.map _).length
     rw [List.length_map]; exact hI.nextQ
   · show (fanout _ _ _ _ _ _).map (·.1) = _
@@ -168,6 +235,75 @@ theorem inv_frame {n : Nat} {s s' : St} {sp : Spec} {fl : Nat} {ss : List Smp} (
           · have : ¬ c = c' := fun x => hcc x.symm
             simp [hcc, this]
 
+theorem inv_frame {n : Nat} {s s' : St} {sp : Spec} {fl : Nat} {ss : List Smp} (hI : Inv n s sp)
+    (h : step s (.frame fl ss) = .ok s') : Inv n s' (specStep sp (.frame fl ss)) := by
+  rcases step_frame_cases s fl ss with ⟨hd, h'⟩ | ⟨hd, hany, h'⟩ | ⟨hd, hany, h'⟩
+  · rw [h'] at h; injection h with h; subst h
+    rw [specStep_frame_dead fl ss (by rw [← hI.dead]; exact hd)]; exact hI
+  · rw [h'] at h; injection h with h; subst h
+    rw [specStep_frame_bad fl ss (by rw [← hI.dead]; exact hd) (by rw [← hI.en]; exact hany)]
+    exact inv_setDead hI true
+  · rw [h'] at h; injection h with h; subst h
+    rw [specStep_frame_good fl ss (by rw [← hI.dead]; exact hd) (by rw [← hI.en]; exact hany)]
+    exact inv_frame_good fl hI
+
+theorem inv_subAt {n : Nat} {s : St} {sp : Spec} {ch : Nat} (hI : Inv n s sp) (hc : ch < s.subs.length) :
+    Inv n (subAt s ch) { sp with qs := sp.qs ++ [⟨some ch, []⟩] } := by
+  refine ⟨hI.en, hI.enLen, ?_, ?_, ?_, ?_, ?_, hI.dead⟩
+  · show (s.subs.set _ _).length = n
+    rw [List.length_set]; exact hI.subsLen
+  · show s.nextQ + 1 = (sp.qs ++ [_]).length
+    simp [hI.nextQ]
+  · show (s.queues ++ [(s.nextQ, [])]).map Prod.fst = List.range (s.nextQ + 1)
+    simp [List.range_succ, hI.ids]
+  · intro c hcn q
+    show ((s.subs.set ch (s.subs.getD ch [] ++ [s.nextQ])).getD c []).count q
+      = if (sp.qs ++ [⟨some ch, []⟩])[q]?.bind QSpec.sub = some c then 1 else 0
+    have hcnt := hI.cnt c hcn q
+    have hnq := hI.nextQ
+    have hget : (s.subs.set ch (s.subs.getD ch [] ++ [s.nextQ])).getD c []
+        = if ch = c then s.subs.getD ch [] ++ [s.nextQ] else s.subs.getD c [] := by
+      simp only [List.getD_eq_getElem?_getD, List.getElem?_set, hc, if_true]
+      split <;> rfl
+    rw [hget]
+    rcases Nat.lt_trichotomy q sp.qs.length with hlt | heq | hgt
+    · rw [List.getElem?_append_left hlt, ← hcnt]
+      by_cases hcc : ch = c
+      · subst hcc
+        have : ¬ s.nextQ = q := by omega
+        simp [List.count_append, this]
+      · simp [hcc]
+    · subst heq
+      rw [List.getElem?_concat_length]
+      rw [List.getElem?_eq_none (Nat.le_refl _)] at hcnt
+      simp only [Option.bind_none, reduceCtorEq, if_false, List.getD_eq_getElem?_getD] at hcnt
+      by_cases hcc : ch = c
+      · subst hcc
+        simp [List.count_append, hcnt, hnq]
+      · simp [hcc, hcnt]
+    · rw [List.getElem?_append_right (by omega)]
+      rw [List.getElem?_eq_none (by omega)] at hcnt
+      simp only [Option.bind_none, reduceCtorEq, if_false, List.getD_eq_getElem?_getD] at hcnt
+      have h1 : ([({ sub := some ch, got := [] } : QSpec)])[q - sp.qs.length]? = none := by
+        apply List.getElem?_eq_none; simp; omega
+      rw [h1]
+      by_cases hcc : ch = c
+      · subst hcc
+        have : ¬ s.nextQ = q := by omega
+        simp [List.count_append, hcnt, this]
+      · simp [hcc, hcnt]
+  · intro q
+    show _ = ((sp.qs ++ [⟨some ch, []⟩])[q]?.map QSpec.got).getD []
+    rw [received_append_empty s _ s.nextQ q rfl, hI.rcv q]
+    rcases Nat.lt_trichotomy q sp.qs.length with hlt | heq | hgt
+    · rw [List.getElem?_append_left hlt]
+    · subst heq
+      rw [List.getElem?_concat_length, List.getElem?_eq_none (Nat.le_refl _)]; rfl
+    · rw [List.getElem?_append_right (by omega), List.getElem?_eq_none (by omega)]
+      have h1 : ([({ sub := some ch, got := [] } : QSpec)])[q - sp.qs.length]? = none := by
+        apply List.getElem?_eq_none; simp; omega
+      rw [h1]
+
 theorem inv_sub {n : Nat} {s s' : St} {sp : Spec} {ch : Nat} (hI : Inv n s sp)
     (h : step s (.sub ch) = .ok s') : Inv n s' (specStep sp (.sub ch)) := by
   rw [step] at h
@@ -175,63 +311,19 @@ theorem inv_sub {n : Nat} {s s' : St} {sp : Spec} {ch : Nat} (hI : Inv n s sp)
   · rw [if_pos hc] at h
     injection h with h; subst h
     have hc' : ch < sp.enabled.length := by rw [← hI.en, hI.enLen, ← hI.subsLen]; exact hc
-    have hsp : specStep sp (.sub ch) = { sp with qs := sp.qs ++ [⟨some ch, []⟩] } := by
-      rw [specStep, if_pos hc']
-    rw [hsp]
-    refine ⟨hI.en, hI.enLen, ?_, ?_, ?_, ?_, ?_⟩
-    · show (s.subs.set _ _).length = n
-      rw [List.length_set]; exact hI.subsLen
-    · show s.nextQ + 1 = (sp.qs ++ [_]).length
-      simp [hI.nextQ]
-    · show (s.queues ++ [(s.nextQ, [])]).map Prod.fst = List.range (s.nextQ + 1)
-      simp [List.range_succ, hI.ids]
-    · intro c hcn q
-      show ((s.subs.set ch (s.subs.getD ch [] ++ [s.nextQ])).getD c []).count q
-        = if (sp.qs ++ [⟨some ch, []⟩])[q]?.bind QSpec.sub = some c then 1 else 0
-      have hcnt := hI.cnt c hcn q
-      have hnq := hI.nextQ
-      have hget : (s.subs.set ch (s.subs.getD ch [] ++ [s.nextQ])).getD c []
-          = if ch = c then s.subs.getD ch [] ++ [s.nextQ] else s.subs.getD c [] := by
-        simp only [List.getD_eq_getElem?_getD, List.getElem?_set, hc, if_true]
-        split <;> rfl
-      rw [hget]
-      rcases Nat.lt_trichotomy q sp.qs.length with hlt | heq | hgt
-      · rw [List.getElem?_append_left hlt, ← hcnt]
-        by_cases hcc : ch = c
-        · subst hcc
-          have : ¬ s.nextQ = q := by omega
-          simp [List.count_append, this]
-        · simp [hcc]
-      · subst heq
-        rw [List.getElem?_concat_length]
-        rw [List.getElem?_eq_none (Nat.le_refl _)] at hcnt
-        simp only [Option.bind_none, reduceCtorEq, if_false, List.getD_eq_getElem?_getD] at hcnt
-        by_cases hcc : ch = c
-        · subst hcc
-          simp [List.count_append, hcnt, hnq]
-        · simp [hcc, hcnt]
-      · rw [List.getElem?_append_right (by omega)]
-        rw [List.getElem?_eq_none (by omega)] at hcnt
-        simp only [Option.bind_none, reduceCtorEq, if_false, List.getD_eq_getElem?_getD] at hcnt
-        have h1 : ([({ sub := some ch, got := [] } : QSpec)])[q - sp.qs.length]? = none := by
-          apply List.getElem?_eq_none; simp; omega
-        rw [h1]
-        by_cases hcc : ch = c
-        · subst hcc
-          have : ¬ s.nextQ = q := by omega
-          simp [List.count_append, hcnt, this]
-        · simp [hcc, hcnt]
-    · intro q
-      show _ = ((sp.qs ++ [⟨some ch, []⟩])[q]?.map QSpec.got).getD []
-      rw [received_append_empty s _ s.nextQ q rfl, hI.rcv q]
-      rcases Nat.lt_trichotomy q sp.qs.length with hlt | heq | hgt
-      · rw [List.getElem?_append_left hlt]
-      · subst heq
-        rw [List.getElem?_concat_length, List.getElem?_eq_none (Nat.le_refl _)]; rfl
-      · rw [List.getElem?_append_right (by omega), List.getElem?_eq_none (by omega)]
-        have h1 : ([({ sub := some ch, got := [] } : QSpec)])[q - sp.qs.length]? = none := by
-          apply List.getElem?_eq_none; simp; omega
-        rw [h1]
+    rw [specStep, if_pos hc']
+    exact inv_subAt hI hc
+  · rw [if_neg hc] at h; cases h
+
+theorem inv_subNeg {n : Nat} {s s' : St} {sp : Spec} {k : Nat} (hI : Inv n s sp)
+    (h : step s (.subNeg k) = .ok s') : Inv n s' (specStep sp (.subNeg k)) := by
+  rw [step] at h
+  by_cases hc : k < s.subs.length
+  · rw [if_pos hc] at h
+    injection h with h; subst h
+    have hl : sp.enabled.length = s.subs.length := by rw [← hI.en, hI.enLen, ← hI.subsLen]
+    rw [specStep, if_pos (by rw [hl]; exact hc), hl]
+    exact inv_subAt hI (by omega)
   · rw [if_neg hc] at h; cases h
 
 theorem inv_unsub {n : Nat} {s s' : St} {sp : Spec} {k : Nat} (hI : Inv n s sp)
@@ -241,7 +333,7 @@ theorem inv_unsub {n : Nat} {s s' : St} {sp : Spec} {k : Nat} (hI : Inv n s sp)
   have hsp : specStep sp (.unsub k)
       = { sp with qs := sp.qs.mapIdx fun i q => if i = k then { q with sub := none } else q } := rfl
   rw [hsp]
-  refine ⟨hI.en, hI.enLen, ?_, ?_, hI.ids, ?_, ?_⟩
+  refine ⟨hI.en, hI.enLen, ?_, ?_, hI.ids, ?_, ?_, hI.dead⟩
   · show (s.subs.map _).length = n
     rw [List.length_map]; exact hI.subsLen
   · show s.nextQ = (sp.qs.mapIdx _).length
@@ -279,31 +371,43 @@ theorem inv_setEnabled {n : Nat} {s s' : St} {sp : Spec} {v : List Bool} (hI : I
     have hsp : specStep sp (.setEnabled v) = { sp with enabled := v } := by
       rw [specStep, if_pos hc']
     rw [hsp]
-    exact ⟨rfl, hc.trans hI.enLen, hI.subsLen, hI.nextQ, hI.ids, hI.cnt, hI.rcv⟩
+    exact ⟨rfl, hc.trans hI.enLen, hI.subsLen, hI.nextQ, hI.ids, hI.cnt, hI.rcv, hI.dead⟩
   · rw [if_neg hc] at h; cases h
 
 theorem inv_step_ok {n : Nat} {s s' : St} {sp : Spec} {op : Op} (hI : Inv n s sp)
     (h : step s op = .ok s') : Inv n s' (specStep sp op) := by
   cases op with
   | frame fl ss => exact inv_frame hI h
+  | badFrame =>
+    rw [step] at h; injection h with h; subst h
+    exact inv_setDead hI true
   | sub ch => exact inv_sub hI h
+  | subNeg k => exact inv_subNeg hI h
   | unsub k => exact inv_unsub hI h
   | setEnabled v => exact inv_setEnabled hI h
+  | restart =>
+    rw [step] at h; injection h with h; subst h
+    exact ⟨hI.en, hI.enLen, hI.subsLen, hI.nextQ, hI.ids, hI.cnt, hI.rcv, rfl⟩
 
 /-- the model call fails exactly when the specification ignores the op -/
 theorem specStep_of_error {n : Nat} {s : St} {sp : Spec} {op : Op} {e : Err} (hI : Inv n s sp)
     (h : step s op = .error e) : specStep sp op = sp := by
   cases op with
   | frame fl ss =>
-    rw [step] at h
-    by_cases hg : ss.any (fun x => x.chan ≥ s.enabled.length) = true
-    · rw [specStep_frame, ← hI.en, if_pos hg]
-    · rw [if_neg hg] at h; cases h
+    obtain ⟨s', h'⟩ := step_frame_isOk s fl ss
+    rw [h'] at h; cases h
+  | badFrame => rw [step] at h; cases h
   | sub ch =>
     rw [step] at h
     by_cases hc : ch < s.subs.length
     · rw [if_pos hc] at h; cases h
     · have hc' : ¬ ch < sp.enabled.length := by rw [← hI.en, hI.enLen, ← hI.subsLen]; exact hc
+      rw [specStep, if_neg hc']
+  | subNeg k =>
+    rw [step] at h
+    by_cases hc : k < s.subs.length
+    · rw [if_pos hc] at h; cases h
+    · have hc' : ¬ k < sp.enabled.length := by rw [← hI.en, hI.enLen, ← hI.subsLen]; exact hc
       rw [specStep, if_neg hc']
   | unsub k => rw [step] at h; cases h
   | setEnabled v =>
@@ -312,6 +416,7 @@ theorem specStep_of_error {n : Nat} {s : St} {sp : Spec} {op : Op} {e : Err} (hI
     · rw [if_pos hc] at h; cases h
     · have hc' : ¬ v.length = sp.enabled.length := by rw [← hI.en]; exact hc
       rw [specStep, if_neg hc']
+  | restart => rw [step] at h; cases h
 
 theorem inv_run {n : Nat} (ops : List Op) {s : St} {sp : Spec} (hI : Inv n s sp) :
     Inv n (run s ops) (specRun sp ops) := by
@@ -326,54 +431,54 @@ theorem inv_run {n : Nat} (ops : List Op) {s : St} {sp : Spec} (hI : Inv n s sp)
 theorem inv_reach (n : Nat) (ops : List Op) : Inv n (run (St.init n) ops) (specRun (Spec.init n) ops) :=
   inv_run ops (inv_init n)
 
-/-- specification only: a queue subscribed to an enabled channel `c` accumulates the `c`-samples of
-    a run of well-formed frames -/
-theorem spec_frames_aux (n c q : Nat) (F : Op → List Nat)
-    (hF : ∀ fl ss, F (.frame fl ss) = (ss.filter (·.chan = c)).map (·.val))
-    (post : List Op) (sp : Spec) (g : List Nat)
-    (hlen : sp.enabled.length = n) (hen : sp.enabled.getD c false = true)
-    (hq : sp.qs[q]? = some ⟨some c, g⟩)
-    (hpost : ∀ op ∈ post, ∃ fl ss, op = .frame fl ss ∧ ∀ x ∈ ss, x.chan < n) :
-    (specRun sp post).qs[q]? = some ⟨some c, g ++ post.flatMap F⟩ := by
-  induction post generalizing sp g with
-  | nil => simpa [specRun] using hq
-  | cons op r ih =>
-    obtain ⟨fl, ss, rfl, hss⟩ := hpost _ List.mem_cons_self
-    have hany : ss.any (fun x => x.chan ≥ sp.enabled.length) = false := by
-      rw [List.any_eq_false]
-      intro x hx
-      have := hss x hx
-      simp only [decide_eq_true_eq]; omega
-    have hsp : specStep sp (.frame fl ss) = { sp with qs := sp.qs.map (qFrame sp.enabled ss) } := by
-      rw [specStep_frame, hany]; rfl
-    rw [specRun, hsp, List.flatMap_cons, hF, ← List.append_assoc]
-    apply ih
-    · exact hlen
-    · exact hen
-    · show (sp.qs.map _)[q]? = _
-      rw [List.getElem?_map, hq]
-      show some (if sp.enabled.getD c false = true then _ else _) = _
-      rw [if_pos hen]
-    · intro op hop; exact hpost op (List.mem_cons_of_mem _ hop)
+theorem inv_reach_en (en : List Bool) (ops : List Op) :
+    Inv en.length (run (St.initEn en) ops) (specRun (Spec.initEn en) ops) :=
+  inv_run ops (inv_initEn en)
 
-theorem spec_frames (n c q : Nat) (F : Op → List Nat)
-    (hF : ∀ fl ss, F (.frame fl ss) = (ss.filter (·.chan = c)).map (·.val))
-    (post : List Op) (sp : Spec)
-    (hlen : sp.enabled.length = n) (hen : sp.enabled.getD c false = true)
-    (hq : sp.qs[q]? = some ⟨some c, []⟩)
-    (hpost : ∀ op ∈ post, ∃ fl ss, op = .frame fl ss ∧ ∀ x ∈ ss, x.chan < n) :
-    ((specRun sp post).qs[q]?.map (·.got)).getD [] = post.flatMap F := by
-  rw [spec_frames_aux n c q F hF post sp [] hlen hen hq hpost]; rfl
+/-- specification only: a queue subscribed to an enabled channel `c` accumulates the `c`-samples of
+    a run of well-formed frames, and the run leaves the stream thread alive -/
+theorem spec_frames_aux (n c q : Nat) (post : List Op) (sp : Spec) (g : List Nat)
+    (hlen : sp.enabled.length = n) (hen : sp.enabled.getD c false = true) (hd : sp.dead = false)
+    (hq : sp.qs[q]? = some ⟨some c, g⟩)
+    (hpost : ∀ op ∈ post, op.wfFrame n = true) :
+    (specRun sp post).qs[q]? = some ⟨some c, g ++ post.flatMap (Op.samplesOf c)⟩ ∧
+      (specRun sp post).dead = false := by
+  induction post generalizing sp g with
+  | nil => simpa [specRun] using ⟨hq, hd⟩
+  | cons op r ih =>
+    have hop := hpost op List.mem_cons_self
+    cases op with
+    | frame fl ss =>
+      have hss : ∀ x ∈ ss, x.chan < sp.enabled.length := by
+        rw [hlen]; simpa [Op.wfFrame] using hop
+      rw [specRun, specStep_frame_good fl ss hd (any_ge_false_of_lt hss), List.flatMap_cons,
+        ← List.append_assoc]
+      apply ih
+      · exact hlen
+      · exact hen
+      · exact hd
+      · show (sp.qs.map _)[q]? = _
+        rw [List.getElem?_map, hq]
+        show some (if sp.enabled.getD c false = true then _ else _) = _
+        rw [if_pos hen]; rfl
+      · intro op hop; exact hpost op (List.mem_cons_of_mem _ hop)
+    | _ => simp [Op.wfFrame] at hop
 
 end Proofs
 
-/-! ### property theorems -/
+/-! ### property theorems — op lists (one op = one critical section, see `Fanout.lean`) -/
 
 /-- every subscriber queue holds exactly what the per-queue specification says: for every history
-    of frames, subscriptions, unsubscriptions and enable changes, and every queue -/
+    of frames (well-formed or not), subscriptions, unsubscriptions, enable changes and stream
+    restarts, and every queue -/
 theorem queue_is_run (n : Nat) (ops : List Op) (q : Nat) :
     received (run (St.init n) ops) q = ((specRun (Spec.init n) ops).qs[q]?.map (·.got)).getD [] :=
   (inv_reach n ops).rcv q
+
+/-- the same after a connect to a device whose channels are already enabled as `en` says -/
+theorem queue_is_run_en (en : List Bool) (ops : List Op) (q : Nat) :
+    received (run (St.initEn en) ops) q = ((specRun (Spec.initEn en) ops).qs[q]?.map (·.got)).getD [] :=
+  (inv_reach_en en ops).rcv q
 
 /-- the code's subscriber lists and the specification's subscriptions agree: queue `q` is in the
     list of channel `c` exactly when the specification has it subscribed to `c` -/
@@ -382,11 +487,43 @@ theorem subs_agree (n : Nat) (ops : List Op) (c q : Nat) (hc : c < n) :
   rw [← List.count_pos_iff, (inv_reach n ops).cnt c hc q]
   split <;> simp_all
 
-/-- gap-free, duplicate-free, in order: a queue subscribed to channel `c` by the last op of `pre`,
-    never unsubscribed afterwards, while `c` stays enabled and no call fails, has received exactly
-    the samples of `c` of all later frames, in order -/
+theorem flatMap_congr_mem {α β : Type} {f g : α → List β} {l : List α} (h : ∀ a ∈ l, f a = g a) :
+    l.flatMap f = l.flatMap g := by
+  induction l with
+  | nil => rfl
+  | cons a r ih =>
+    rw [List.flatMap_cons, List.flatMap_cons, h a List.mem_cons_self,
+      ih (fun x hx => h x (List.mem_cons_of_mem _ hx))]
+
+/-- core of the delivery theorems, from any state that refines a specification state: a queue
+    subscribed now to an enabled channel `c`, while the stream thread is alive, receives exactly the
+    `c`-samples, in order, of the well-formed frames processed next — and the thread stays alive -/
+theorem since_subscription_core {n : Nat} {s : St} {sp : Spec} (hI : Inv n s sp) (c : Nat) (hc : c < n)
+    (hen : s.enabled.getD c false = true) (hd : s.dead = false) (post : List Op)
+    (hpost : ∀ op ∈ post, op.wfFrame n = true) :
+    received (run s (.sub c :: post)) s.nextQ = post.flatMap (Op.samplesOf c) ∧
+      (run s (.sub c :: post)).dead = false := by
+  have hc' : c < sp.enabled.length := by rw [← hI.en, hI.enLen]; exact hc
+  have hsp : specStep sp (.sub c) = { sp with qs := sp.qs ++ [⟨some c, []⟩] } := by
+    rw [specStep, if_pos hc']
+  have hI2 := inv_run (.sub c :: post) hI
+  rw [specRun, hsp] at hI2
+  have h := spec_frames_aux n c s.nextQ post { sp with qs := sp.qs ++ [⟨some c, []⟩] } []
+    (by rw [← hI.enLen, hI.en]) (by rw [← hI.en]; exact hen) (by rw [← hI.dead]; exact hd)
+    (by show (_ ++ [_])[s.nextQ]? = _
+        rw [hI.nextQ]; exact List.getElem?_concat_length) hpost
+  refine ⟨?_, by rw [hI2.dead]; exact h.2⟩
+  rw [hI2.rcv, h.1]; rfl
+
+/-- gap-free, duplicate-free, in order: a queue subscribed to channel `c` by the op after `pre`,
+    never unsubscribed afterwards, while `c` stays enabled, the stream thread has not died during
+    `pre`, and every later frame is well-formed for the device (the decoder accepts it: channel ids
+    below `n`), has received exactly the samples of `c` of all later frames, in order.
+    (Before round 3 this was stated without `hdead`; that was wrong for the code — R-C08-2: a frame the
+    decoder rejects ends the stream thread — see `dead_stops_delivery`, `delivery_until_first_bad`.) -/
 theorem run_since_subscription (n : Nat) (pre post : List Op) (c : Nat) (hc : c < n)
     (hen : ((specRun (Spec.init n) (pre ++ [.sub c])).enabled.getD c false) = true)
+    (hdead : (run (St.init n) pre).dead = false)
     (hpost : ∀ op ∈ post, ∃ fl ss, op = .frame fl ss ∧ ∀ x ∈ ss, x.chan < n) :
     let q := (run (St.init n) pre).nextQ
     received (run (St.init n) (pre ++ [.sub c] ++ post)) q =
@@ -395,18 +532,134 @@ theorem run_since_subscription (n : Nat) (pre post : List Op) (c : Nat) (hc : c 
         | _ => [] := by
   intro q
   have hI := inv_reach n pre
-  rw [queue_is_run, List.append_assoc, specRun_append, specRun_append]
-  rw [specRun_append] at hen
-  have hc' : c < (specRun (Spec.init n) pre).enabled.length := by rw [← hI.en, hI.enLen]; exact hc
-  have hsp : specRun (specRun (Spec.init n) pre) [.sub c]
-      = { specRun (Spec.init n) pre with qs := (specRun (Spec.init n) pre).qs ++ [⟨some c, []⟩] } := by
-    rw [specRun, specRun, specStep, if_pos hc']
-  rw [hsp] at hen ⊢
-  refine spec_frames n c q _ ?hF post _ (by rw [← hI.en]; exact hI.enLen) hen
-    (by show (_ ++ [_])[q]? = _
-        rw [show q = (specRun (Spec.init n) pre).qs.length from hI.nextQ]
-        exact List.getElem?_concat_length) hpost
-  intro _ _; rfl
+  have hen' : (run (St.init n) pre).enabled.getD c false = true := by
+    rw [specRun_append] at hen
+    rw [hI.en, ← hen]
+    simp only [specRun, specStep]
+    split <;> rfl
+  have hwf : ∀ op ∈ post, op.wfFrame n = true := by
+    intro op hop
+    obtain ⟨fl, ss, rfl, hss⟩ := hpost op hop
+    simpa [Op.wfFrame] using hss
+  rw [List.append_assoc, run_append]
+  have h := (since_subscription_core hI c hc hen' hdead post hwf).1
+  rw [show ([Op.sub c] ++ post) = .sub c :: post from rfl, h]
+  apply flatMap_congr_mem
+  intro op hop
+  obtain ⟨fl, ss, rfl, _⟩ := hpost op hop
+  rfl
+
+/-- the same from the state after a connect to a device with enable vector `en` (channels enabled at
+    connect time are delivered without the client enabling them again) -/
+theorem run_since_subscription_en (en : List Bool) (pre post : List Op) (c : Nat) (hc : c < en.length)
+    (hen : (run (St.initEn en) pre).enabled.getD c false = true)
+    (hdead : (run (St.initEn en) pre).dead = false)
+    (hpost : ∀ op ∈ post, op.wfFrame en.length = true) :
+    received (run (St.initEn en) (pre ++ [.sub c] ++ post)) (run (St.initEn en) pre).nextQ
+      = post.flatMap (Op.samplesOf c) ∧
+    (run (St.initEn en) (pre ++ [.sub c] ++ post)).dead = false := by
+  rw [List.append_assoc, run_append]
+  exact since_subscription_core (inv_reach_en en pre) c hc hen hdead post hpost
+
+/-- ops other than `restart` cannot revive a dead stream thread, and while it is dead no queue
+    content changes: after a frame the decoder rejects, NOTHING is delivered any more (to any queue,
+    whatever is subscribed or enabled) until `stream_stop(); stream_start()` -/
+theorem dead_stops_delivery (s : St) (post : List Op) (hd : s.dead = true)
+    (hpost : ∀ op ∈ post, op ≠ .restart) :
+    (run s post).dead = true ∧ ∀ q, received (run s post) q = received s q := by
+  induction post generalizing s with
+  | nil => exact ⟨hd, fun _ => rfl⟩
+  | cons op r ih =>
+    have hr : ∀ op ∈ r, op ≠ .restart := fun op hop => hpost op (List.mem_cons_of_mem _ hop)
+    have key : (apply s op).dead = true ∧ ∀ q, received (apply s op) q = received s q := by
+      unfold apply
+      cases op with
+      | frame fl ss => rw [step_frame_dead fl ss hd]; exact ⟨hd, fun _ => rfl⟩
+      | badFrame => exact ⟨rfl, fun _ => rfl⟩
+      | sub ch =>
+        rw [step]
+        by_cases hc : ch < s.subs.length
+        · rw [if_pos hc]; exact ⟨hd, fun q => received_append_empty s _ s.nextQ q rfl⟩
+        · rw [if_neg hc]; exact ⟨hd, fun _ => rfl⟩
+      | subNeg k =>
+        rw [step]
+        by_cases hc : k < s.subs.length
+        · rw [if_pos hc]; exact ⟨hd, fun q => received_append_empty s _ s.nextQ q rfl⟩
+        · rw [if_neg hc]; exact ⟨hd, fun _ => rfl⟩
+      | unsub k => exact ⟨hd, fun _ => rfl⟩
+      | setEnabled v =>
+        rw [step]
+        by_cases hc : v.length = s.enabled.length
+        · rw [if_pos hc]; exact ⟨hd, fun _ => rfl⟩
+        · rw [if_neg hc]; exact ⟨hd, fun _ => rfl⟩
+      | restart => exact absurd rfl (hpost _ List.mem_cons_self)
+    rw [run_cons]
+    obtain ⟨h1, h2⟩ := ih (apply s op) key.1 hr
+    exact ⟨h1, fun q => by rw [h2 q, key.2 q]⟩
+
+/-- delivery up to the first bad frame, and not beyond: a queue subscribed to the enabled channel
+    `c` receives exactly the `c`-samples of the well-formed frames `good` that precede the first frame
+    `bad` the decoder rejects; whatever follows (`rest`: more frames, subscriptions, enable changes —
+    anything but a restart of the stream) adds nothing -/
+theorem delivery_until_first_bad (en : List Bool) (pre good rest : List Op) (bad : Op) (c : Nat)
+    (hc : c < en.length)
+    (hen : (run (St.initEn en) pre).enabled.getD c false = true)
+    (hdead : (run (St.initEn en) pre).dead = false)
+    (hgood : ∀ op ∈ good, op.wfFrame en.length = true)
+    (hbad : bad.kills en.length = true)
+    (hrest : ∀ op ∈ rest, op ≠ .restart) :
+    received (run (St.initEn en) (pre ++ [.sub c] ++ good ++ [bad] ++ rest)) (run (St.initEn en) pre).nextQ
+      = good.flatMap (Op.samplesOf c) := by
+  obtain ⟨h1, h2⟩ := run_since_subscription_en en pre good c hc hen hdead hgood
+  have hI := inv_reach_en en (pre ++ [.sub c] ++ good)
+  generalize hs : run (St.initEn en) (pre ++ [.sub c] ++ good) = s at h1 h2 hI
+  have hb : (apply s bad).dead = true ∧ ∀ q, received (apply s bad) q = received s q := by
+    unfold apply
+    cases bad with
+    | frame fl ss =>
+      have : ss.any (fun x => x.chan ≥ s.enabled.length) = true := by
+        rw [hI.enLen]; exact hbad
+      rw [step_frame_bad fl ss h2 this]; exact ⟨rfl, fun _ => rfl⟩
+    | badFrame => exact ⟨rfl, fun _ => rfl⟩
+    | _ => simp [Op.kills] at hbad
+  rw [List.append_assoc _ [bad] rest, run_append, hs, show [bad] ++ rest = bad :: rest from rfl,
+    run_cons, (dead_stops_delivery _ rest hb.1 hrest).2, hb.2, h1]
+
+/-- well-formed frames and application calls never end the stream thread -/
+theorem alive_of_wf (s : St) (ops : List Op) (hd : s.dead = false)
+    (hops : ∀ op ∈ ops, op.kills s.enabled.length = false) :
+    (run s ops).dead = false ∧ (run s ops).enabled.length = s.enabled.length := by
+  induction ops generalizing s with
+  | nil => exact ⟨hd, rfl⟩
+  | cons op r ih =>
+    have key : (apply s op).dead = false ∧ (apply s op).enabled.length = s.enabled.length := by
+      have hop := hops op List.mem_cons_self
+      unfold apply
+      cases op with
+      | frame fl ss =>
+        rw [step_frame_good fl ss hd (by simpa [Op.kills] using hop)]; exact ⟨hd, rfl⟩
+      | badFrame => simp [Op.kills] at hop
+      | sub ch =>
+        rw [step]
+        by_cases hc : ch < s.subs.length
+        · rw [if_pos hc]; exact ⟨hd, rfl⟩
+        · rw [if_neg hc]; exact ⟨hd, rfl⟩
+      | subNeg k =>
+        rw [step]
+        by_cases hc : k < s.subs.length
+        · rw [if_pos hc]; exact ⟨hd, rfl⟩
+        · rw [if_neg hc]; exact ⟨hd, rfl⟩
+      | unsub k => exact ⟨hd, rfl⟩
+      | setEnabled v =>
+        rw [step]
+        by_cases hc : v.length = s.enabled.length
+        · rw [if_pos hc]; exact ⟨hd, hc⟩
+        · rw [if_neg hc]; exact ⟨hd, rfl⟩
+      | restart => exact ⟨rfl, rfl⟩
+    rw [run_cons]
+    obtain ⟨h1, h2⟩ := ih (apply s op) key.1 (fun op hop => by
+      rw [key.2]; exact hops op (List.mem_cons_of_mem _ hop))
+    exact ⟨h1, h2.trans key.2⟩
 
 /-- nothing is delivered for other channels, to unsubscribed queues, or for channels the client has
     not enabled: a frame leaves queue `q` untouched unless `q` is subscribed to an enabled channel
@@ -414,20 +667,26 @@ theorem run_since_subscription (n : Nat) (pre post : List Op) (c : Nat) (hc : c 
 theorem no_leak (s : St) (fl : Nat) (ss : List Smp) (s' : St) (q : Nat) (h : step s (.frame fl ss) = .ok s')
     (hq : ∀ c, q ∈ s.subs.getD c [] → (s.enabled.getD c false = false ∨ ∀ x ∈ ss, x.chan ≠ c)) :
     received s' q = received s q := by
-  obtain ⟨_, rfl⟩ := step_frame_ok h
-  apply received_fanout_of_nil s _ ss q rfl
-  rw [extra_eq_nil]; rfl
-  intro c _ _
-  by_cases hm : q ∈ s.subs.getD c []
-  · exact Or.inl (group_isEmpty_of _ _ _ (hq c hm))
-  · exact Or.inr (List.count_eq_zero.mpr hm)
+  rcases step_frame_cases s fl ss with ⟨_, h'⟩ | ⟨_, _, h'⟩ | ⟨_, _, h'⟩
+  · rw [h'] at h; injection h with h; subst h; rfl
+  · rw [h'] at h; injection h with h; subst h; rfl
+  · rw [h'] at h; injection h with h; subst h
+    apply received_fanout_of_nil s _ ss q rfl
+    rw [extra_eq_nil]; rfl
+    intro c _ _
+    by_cases hm : q ∈ s.subs.getD c []
+    · exact Or.inl (group_isEmpty_of _ _ _ (hq c hm))
+    · exact Or.inr (List.count_eq_zero.mpr hm)
 
 /-- frames that carry no samples, only samples of channels nobody listens to, or the overflow flag do
-    not disturb delivery: no error, queues unchanged -/
+    not disturb delivery: no error, queues and subscriptions unchanged, and the stream thread survives
+    (it is dead afterwards only if it was dead before) -/
 theorem empty_frames_neutral (s : St) (fl : Nat) (ss : List Smp)
     (hfor : ∀ x ∈ ss, x.chan < s.enabled.length ∧ (s.subs.getD x.chan [] = [] ∨ s.enabled.getD x.chan false = false)) :
-    ∃ s', step s (.frame fl ss) = .ok s' ∧ s'.queues = s.queues ∧ s'.subs = s.subs := by
-  refine ⟨_, step_frame_of_lt s fl ss (fun x hx => (hfor x hx).1), ?_, rfl⟩
+    ∃ s', step s (.frame fl ss) = .ok s' ∧ s'.queues = s.queues ∧ s'.subs = s.subs ∧ s'.dead = s.dead := by
+  rcases Bool.eq_false_or_eq_true s.dead with hd | hd
+  · exact ⟨s, step_frame_dead fl ss hd, rfl, rfl, rfl⟩
+  refine ⟨_, step_frame_of_lt s fl ss hd (fun x hx => (hfor x hx).1), ?_, rfl, rfl⟩
   apply fanout_eq_self
   intro c
   cases hg : (group s.enabled ss c).isEmpty with
@@ -443,6 +702,47 @@ theorem groups_nonempty (n : Nat) (ops : List Op) :
     ∀ e ∈ (run (St.init n) ops).queues, ∀ g ∈ e.2, g ≠ [] :=
   groupsNonempty_run _ ops (groupsNonempty_init n)
 
+/-- the enabled test is made per sample (before, and outside, the queue lock): an execution in which
+    the enable vector changes between two samples of one frame is the history with the frame split
+    there (see `Fanout.lean`).  Splitting a well-formed frame — here with nothing in between — changes
+    no queue's content; with a `setEnabled` in between, the split history is the execution. -/
+theorem frame_split (n : Nat) (pre post : List Op) (fl fl' : Nat) (a b : List Smp)
+    (hab : ∀ x ∈ a ++ b, x.chan < n) (q : Nat) :
+    received (run (St.init n) (pre ++ [.frame fl (a ++ b)] ++ post)) q
+      = received (run (St.init n) (pre ++ [.frame fl a, .frame fl' b] ++ post)) q := by
+  rw [queue_is_run, queue_is_run]
+  have hlen : (specRun (Spec.init n) pre).enabled.length = n := by
+    rw [← (inv_reach n pre).en]; exact (inv_reach n pre).enLen
+  have : specRun (specRun (Spec.init n) pre) [.frame fl (a ++ b)]
+      = specRun (specRun (Spec.init n) pre) [.frame fl a, .frame fl' b] := by
+    generalize specRun (Spec.init n) pre = sp at hlen
+    have ha : ∀ x ∈ a, x.chan < sp.enabled.length := fun x hx => by
+      rw [hlen]; exact hab x (List.mem_append_left _ hx)
+    have hb : ∀ x ∈ b, x.chan < sp.enabled.length := fun x hx => by
+      rw [hlen]; exact hab x (List.mem_append_right _ hx)
+    have hab' : ∀ x ∈ a ++ b, x.chan < sp.enabled.length := fun x hx => by rw [hlen]; exact hab x hx
+    simp only [specRun]
+    rcases Bool.eq_false_or_eq_true sp.dead with hd | hd
+    · rw [specStep_frame_dead _ _ hd, specStep_frame_dead _ _ hd, specStep_frame_dead _ _ hd]
+    · rw [specStep_frame_good _ _ hd (any_ge_false_of_lt hab'), specStep_frame_good _ _ hd (any_ge_false_of_lt ha),
+        specStep_frame_good _ _ (by exact hd) (any_ge_false_of_lt (by exact hb))]
+      congr 1
+      rw [List.map_map]
+      apply List.map_congr_left
+      intro qe _
+      exact qFrame_append _ _ _ _
+  rw [List.append_assoc, specRun_append, specRun_append, this, ← specRun_append, ← specRun_append,
+    ← List.append_assoc]
+
+/-- Python's negative index: `stream_sub(-(k+1))` on a device with `n` channels IS
+    `stream_sub(n-1-k)` for `k < n` and raises IndexError otherwise — the only place where an integer
+    channel argument and the natural-number channel of `sub` differ -/
+theorem sub_negative_index (s : St) (k : Nat) :
+    step s (.subNeg k) = if k < s.subs.length then step s (.sub (s.subs.length - 1 - k)) else .error .indexError := by
+  by_cases hk : k < s.subs.length
+  · have h2 : s.subs.length - 1 - k < s.subs.length := by omega
+    simp only [step, if_pos hk, if_pos h2]
+  · simp only [step, if_neg hk]
 /-- the single receive thread preserves FIFO order end to end: the stream queue holds exactly the
     STREAM frames, in arrival order, and the response queue everything else in arrival order (ACKs are
     dropped only while no device description is known) -/
@@ -464,13 +764,13 @@ theorem route_fifo (hasDev : Bool) (frs : List Serial.Frame) :
     by_cases h1 : fr.fid = Gen.Ids.idSTREAM
     · have hd : Route.dest hasDev fr = .stream := by simp [Route.dest, h1]
       rw [hd]
-      simp [List.filter_cons, h1, ih1, ih2]
+      simp [h1, ih1, ih2]
     · by_cases h2 : hasDev = false ∧ fr.fid = Gen.Ids.idACK
       · have hd : Route.dest hasDev fr = .dropped := by simp [Route.dest, h2.1, h2.2, hne]
         rw [hd]
         obtain ⟨ha, hb⟩ := h2
         subst ha
-        simp [List.filter_cons, hb, hne, ih1, ih2]
+        simp [hb, hne, ih1, ih2]
       · have hd : Route.dest hasDev fr = .resp := by
           unfold Route.dest
           rw [if_neg h1]
@@ -480,6 +780,184 @@ theorem route_fifo (hasDev : Bool) (frs : List Serial.Frame) :
         rw [hd]
         simp [List.filter_cons, h1, h2, ih1, ih2]
 
+
+/-! ### property theorems — the three threads (`Fanout.Sys`): receive thread → `_q_stream` → stream
+    thread, application calls in between, every interleaving -/
+
+theorem sysRun_append (s : Sys) (a b : List Ev) : sysRun s (a ++ b) = sysRun (sysRun s a) b := by
+  induction a generalizing s with
+  | nil => rfl
+  | cons e r ih => exact ih _
+
+theorem sysOps_append (s : Sys) (a b : List Ev) : sysOps s (a ++ b) = sysOps s a ++ sysOps (sysRun s a) b := by
+  induction a generalizing s with
+  | nil => rfl
+  | cons e r ih => simp only [List.cons_append, sysOps, sysRun, ih, List.append_assoc]
+
+theorem sysStep_fan (s : Sys) (e : Ev) : (sysStep s e).fan = run s.fan (evOp s e).toList := by
+  cases e with
+  | iter =>
+    unfold sysStep evOp
+    cases ha : s.alive with
+    | false => simp [run]
+    | true =>
+      cases hq : s.q.head? with
+      | none => simp [run]
+      | some f => simp [run_singleton]
+  | start =>
+    unfold sysStep evOp
+    cases s.started <;> simp [run, run_singleton]
+  | arrive f => rfl
+  | stop => rfl
+  | sub ch => simp [sysStep, evOp, run_singleton]
+  | subNeg k => simp [sysStep, evOp, run_singleton]
+  | unsub q => simp [sysStep, evOp, run_singleton]
+  | setEnabled v => simp [sysStep, evOp, run_singleton]
+
+/-- Route ∘ Fanout, part 1: whatever the interleaving of the receive thread, the stream thread's
+    iterations and the application's calls, the fan-out state is the `run` of the op list `sysOps`
+    (the calls, and the frames at the moment they are taken from `_q_stream`) — so every op-list
+    theorem above (`queue_is_run`, `no_leak`, …) speaks about every interleaving -/
+theorem sys_fan_is_run (s : Sys) (evs : List Ev) : (sysRun s evs).fan = run s.fan (sysOps s evs) := by
+  induction evs generalizing s with
+  | nil => rfl
+  | cons e r ih => rw [sysRun, sysOps, run_append, ← sysStep_fan, ih]
+
+/-- Route ∘ Fanout, part 2 (FIFO, no loss, no duplication between the two threads): at every moment
+    the frames the stream thread has taken, followed by those still waiting in `_q_stream`, are
+    exactly the frames that were waiting at the start followed by those the receive thread has put
+    since — in the same order -/
+theorem sys_fifo (s : Sys) (evs : List Ev) :
+    sysConsumed s evs ++ (sysRun s evs).q = s.q ++ arrived evs := by
+  induction evs generalizing s with
+  | nil => simp [sysConsumed, sysRun, arrived]
+  | cons e r ih =>
+    rw [sysConsumed, sysRun, arrived, List.append_assoc, ih, ← List.append_assoc, ← List.append_assoc]
+    congr 1
+    cases e with
+    | iter =>
+      unfold sysStep evOp consumedBy evOp
+      cases ha : s.alive with
+      | false => simp [arrivedBy]
+      | true =>
+        cases hq : s.q with
+        | nil => simp [arrivedBy]
+        | cons f t => simp [arrivedBy]
+    | arrive f => simp [sysStep, arrivedBy, consumedBy]
+    | start => simp [sysStep, arrivedBy, consumedBy]
+    | stop => simp [sysStep, arrivedBy, consumedBy]
+    | sub ch => simp [sysStep, arrivedBy, consumedBy]
+    | subNeg k => simp [sysStep, arrivedBy, consumedBy]
+    | unsub q => simp [sysStep, arrivedBy, consumedBy]
+    | setEnabled v => simp [sysStep, arrivedBy, consumedBy]
+
+/-- a history in which only the receive thread and the stream thread act performs exactly the frames
+    it consumes -/
+theorem sysOps_eq_consumed (s : Sys) (evs : List Ev) (h : ∀ e ∈ evs, e = .iter ∨ ∃ f, e = .arrive f) :
+    sysOps s evs = sysConsumed s evs := by
+  induction evs generalizing s with
+  | nil => rfl
+  | cons e r ih =>
+    rw [sysOps, sysConsumed, ih _ (fun e he => h e (List.mem_cons_of_mem _ he))]
+    rcases h e List.mem_cons_self with rfl | ⟨f, rfl⟩
+    · rfl
+    · rfl
+
+/-- progress (in the style of `Worker` / C13 `alive_while_started`, which proves that the loop calls
+    its target again as long as no stop is requested and the target returns): while the stream is
+    started and the thread has not died, ONE loop iteration takes the OLDEST waiting frame from
+    `_q_stream` and processes it completely (decode, group, fan-out) — no frame waits behind a younger
+    one, none is skipped -/
+theorem iter_consumes (s : Sys) (f : Op) (r : List Op) (hs : s.started = true) (hd : s.fan.dead = false)
+    (hq : s.q = f :: r) : sysStep s .iter = { s with q := r, fan := apply s.fan f } := by
+  have ha : s.alive = true := by simp [Sys.alive, hs, hd]
+  simp [sysStep, evOp, ha, hq]
+
+/-- "every such sample is eventually delivered … as long as the stream is not stopped": a started,
+    live stream thread empties `_q_stream` in `_q_stream.length` iterations when the waiting frames are
+    well-formed, processing them in order; nothing else is needed (no new frame, no call) -/
+theorem drain (s : Sys) (hs : s.started = true) (hd : s.fan.dead = false)
+    (hwf : ∀ f ∈ s.q, f.wfFrame s.fan.enabled.length = true) :
+    sysRun s (List.replicate s.q.length .iter) = { s with q := [], fan := run s.fan s.q } := by
+  obtain ⟨fan, q, started⟩ := s
+  simp only at hs hd hwf ⊢
+  subst hs
+  induction q generalizing fan with
+  | nil => rfl
+  | cons f r ih =>
+    rw [List.length_cons, List.replicate_succ, sysRun, iter_consumes _ f r rfl hd rfl, run_cons]
+    have hf := hwf f List.mem_cons_self
+    have hk : f.kills fan.enabled.length = false := by
+      cases f with
+      | frame fl ss =>
+        simp only [Op.wfFrame, List.all_eq_true, decide_eq_true_eq] at hf
+        simp only [Op.kills]
+        exact any_ge_false_of_lt hf
+      | _ => simp [Op.wfFrame] at hf
+    have h1 := alive_of_wf fan [f] hd (by simpa using hk)
+    rw [run_singleton] at h1
+    exact ih (apply fan f) h1.1 (fun g hg => by rw [h1.2]; exact hwf g (List.mem_cons_of_mem _ hg))
+
+/-- END-TO-END DELIVERY.  After any history `pre` of the three threads, the application subscribes a
+    new queue to a channel `c` that is enabled, while the stream thread has not died.  From then on
+    only the receive thread and the stream thread act (`post`: arrivals and loop iterations in any
+    interleaving), all frames concerned — the backlog still waiting in `_q_stream` at subscription time
+    and the later arrivals — are well-formed, and at the end `_q_stream` is empty (which `drain`
+    guarantees after finitely many iterations of a started stream).  Then the queue has received
+    EXACTLY the `c`-samples of the backlog and of every stream frame received since, each once, in
+    device order.  ("Since the subscription" therefore means "processed since": the backlog counts.) -/
+theorem end_to_end_delivery (en : List Bool) (pre post : List Ev) (c : Nat) (hc : c < en.length)
+    (hdead : (sysRun (Sys.init en) pre).fan.dead = false)
+    (hen : (sysRun (Sys.init en) pre).fan.enabled.getD c false = true)
+    (hpost : ∀ e ∈ post, e = .iter ∨ ∃ f, e = .arrive f)
+    (hwf : ∀ f ∈ (sysRun (Sys.init en) pre).q ++ arrived post, f.wfFrame en.length = true)
+    (hdrained : (sysRun (Sys.init en) (pre ++ [.sub c] ++ post)).q = []) :
+    received (sysRun (Sys.init en) (pre ++ [.sub c] ++ post)).fan (sysRun (Sys.init en) pre).fan.nextQ
+      = ((sysRun (Sys.init en) pre).q ++ arrived post).flatMap (Op.samplesOf c) := by
+  have hI : Inv en.length (sysRun (Sys.init en) pre).fan
+      (specRun (Spec.initEn en) (sysOps (Sys.init en) pre)) := by
+    rw [sys_fan_is_run]; exact inv_reach_en en _
+  rw [List.append_assoc, sysRun_append] at hdrained ⊢
+  generalize sysRun (Sys.init en) pre = s0 at *
+  have hfifo := sys_fifo (sysStep s0 (.sub c)) post
+  rw [show [Ev.sub c] ++ post = .sub c :: post from rfl, sysRun] at hdrained ⊢
+  rw [hdrained, List.append_nil] at hfifo
+  rw [sys_fan_is_run, sysOps_eq_consumed _ _ hpost, hfifo, sysStep_fan]
+  show received (run (run s0.fan [.sub c]) (s0.q ++ arrived post)) s0.fan.nextQ = _
+  rw [← run_append]
+  exact (since_subscription_core hI c hc hen hdead _ hwf).1
+
+/-- END-TO-END, on the wire.  The same with the frames as the reassembly delivers them to the receive
+    thread (`frs`, any frame ids): the receive thread routes the STREAM frames to `_q_stream`
+    (`Route.queues`), the stream thread decodes them with the C04 decoder
+    (`Stream.frameStreamDecode`); if every STREAM frame decodes, no backlog was waiting, and
+    `_q_stream` has been drained, the new subscriber of `c` has received exactly the positions
+    (`tagged_getElem?`: position in the concatenation of all decoded samples, i.e. in the device's
+    output) of the `c`-samples, ascending: each sample of `c` the device sent, once, in device order -/
+theorem end_to_end_wire (layout : List Stream.Chan) (user : List Stream.UserType) (en : List Bool)
+    (hlen : layout.length = en.length) (hasDev : Bool) (frs : List Serial.Frame)
+    (pre post : List Ev) (c : Nat) (hc : c < en.length)
+    (hdead : (sysRun (Sys.init en) pre).fan.dead = false)
+    (hen : (sysRun (Sys.init en) pre).fan.enabled.getD c false = true)
+    (hq0 : (sysRun (Sys.init en) pre).q = [])
+    (hpost : ∀ e ∈ post, e = .iter ∨ ∃ f, e = .arrive f)
+    (harr : arrived post = arrivals layout user hasDev frs)
+    (hdec : ∀ fr ∈ frs, fr.fid = Gen.Ids.idSTREAM → ∃ r, Stream.frameStreamDecode layout user fr = .ok r)
+    (hdrained : (sysRun (Sys.init en) (pre ++ [.sub c] ++ post)).q = []) :
+    received (sysRun (Sys.init en) (pre ++ [.sub c] ++ post)).fan (sysRun (Sys.init en) pre).fan.nextQ
+      = ((tagged 0 (samplesOfFrames layout user (frs.filter (fun f => f.fid = Gen.Ids.idSTREAM)))).filter
+          (·.chan = c)).map (·.val) := by
+  have hroute : (Route.queues hasDev frs).2 = frs.filter (fun f => f.fid = Gen.Ids.idSTREAM) :=
+    (route_fifo hasDev frs).1
+  have hwf : ∀ f ∈ (sysRun (Sys.init en) pre).q ++ arrived post, f.wfFrame en.length = true := by
+    rw [hq0, List.nil_append, harr, arrivals, hroute, ← hlen]
+    apply opsOfFrames_wf
+    intro fr hfr
+    obtain ⟨h1, h2⟩ := List.mem_filter.mp hfr
+    exact hdec fr h1 (by simpa using h2)
+  rw [end_to_end_delivery en pre post c hc hdead hen hpost hwf hdrained, hq0, List.nil_append, harr,
+    arrivals, hroute, flatMap_opsOfFrames]
+
 /-- the fan-out code that `Fanout.lean` transcribes is present in the current source (regenerated
     facts): the stream thread groups the samples of enabled channels and puts each group on every queue
     of its channel under the queue lock; sub/unsub edit the subscriber lists under the same lock; the
@@ -488,8 +966,126 @@ theorem source_shape :
     Gen.CfgShape.fanoutShape = true ∧ Gen.CfgShape.subUnsubShape = true ∧
     Gen.CfgShape.recvRouteShape = true := by decide
 
+/-! ### non-vacuity: the hypotheses of the theorems above are satisfiable, on concrete histories -/
+
 example : received (run (St.init 3) [.sub 1, .sub 1, .sub 0, .setEnabled [true, true, false],
     .frame 0 [⟨1, 0⟩, ⟨0, 1⟩, ⟨1, 2⟩, ⟨2, 3⟩], .unsub 0, .frame 1 [⟨1, 4⟩], .frame 0 []]) 1 = [0, 2, 4] := by
+  decide +kernel
+
+/-- `run_since_subscription`: hypotheses hold for a 2-channel device, channel 0 enabled -/
+example : (2 > 0) ∧ ((specRun (Spec.init 2) ([.setEnabled [true, true]] ++ [.sub 0])).enabled.getD 0 false) = true ∧
+    (run (St.init 2) [.setEnabled [true, true]]).dead = false ∧
+    (∀ op ∈ [Op.frame 0 [⟨0, 5⟩, ⟨1, 6⟩], .frame 1 []], ∃ fl ss, op = .frame fl ss ∧ ∀ x ∈ ss, x.chan < 2) := by
+  refine ⟨by decide, by decide, by decide, ?_⟩
+  intro op hop
+  simp only [List.mem_cons, List.mem_nil_iff, or_false] at hop
+  rcases hop with rfl | rfl
+  · exact ⟨0, _, rfl, by decide⟩
+  · exact ⟨1, _, rfl, by decide⟩
+
+/-- `run_since_subscription_en`: a channel enabled at connect time, never enabled by the client -/
+example : (run (St.initEn [true, false]) []).enabled.getD 0 false = true ∧
+    (run (St.initEn [true, false]) []).dead = false ∧
+    (∀ op ∈ [Op.frame 0 [⟨0, 5⟩, ⟨1, 6⟩]], op.wfFrame [true, false].length = true) ∧
+    received (run (St.initEn [true, false]) ([] ++ [.sub 0] ++ [.frame 0 [⟨0, 5⟩, ⟨1, 6⟩]])) 0 = [5] := by
+  decide +kernel
+
+/-- R-C08-2, the reviewer's history: 2-channel device, frames ch0:1, ch7:2, ch0:3 leave the queue at [1]
+    and the stream thread dead (`dead_stops_delivery`, `delivery_until_first_bad` with
+    `good = [frame 0 [⟨0,1⟩]]`, `bad = frame 0 [⟨7,2⟩]`, `rest = [frame 0 [⟨0,3⟩]]`) -/
+example : let s := run (St.initEn [true, true]) [.sub 0, .frame 0 [⟨0, 1⟩], .frame 0 [⟨7, 2⟩], .frame 0 [⟨0, 3⟩]]
+    received s 0 = [1] ∧ s.dead = true := by decide +kernel
+
+example : (run (St.initEn [true, true]) []).enabled.getD 0 false = true ∧
+    (run (St.initEn [true, true]) []).dead = false ∧
+    (∀ op ∈ [Op.frame 0 [⟨0, 1⟩]], op.wfFrame [true, true].length = true) ∧
+    (Op.frame 0 [⟨7, 2⟩]).kills [true, true].length = true ∧ Op.badFrame.kills 2 = true ∧
+    (∀ op ∈ [Op.frame 0 [⟨0, 3⟩]], op ≠ .restart) := by decide
+
+/-- … and a restart of the stream revives delivery (`restart` is the only op `dead_stops_delivery` excludes) -/
+example : received (run (St.initEn [true]) [.sub 0, .frame 0 [⟨0, 1⟩], .badFrame, .frame 0 [⟨0, 2⟩], .restart,
+    .frame 0 [⟨0, 3⟩]]) 0 = [1, 3] := by decide +kernel
+
+/-- `alive_of_wf`, `no_leak`, `empty_frames_neutral`, `frame_split`: hypotheses satisfiable -/
+example : (St.initEn [true]).dead = false ∧
+    (∀ op ∈ [Op.frame 1 [⟨0, 1⟩], .sub 0, .subNeg 0, .unsub 3, .setEnabled [false], .restart],
+      op.kills (St.initEn [true]).enabled.length = false) := by decide
+
+example : ∃ s', step (run (St.initEn [true, false]) [.sub 1]) (.frame 0 [⟨1, 9⟩, ⟨0, 8⟩]) = .ok s' ∧
+    ∀ c, 0 ∈ (run (St.initEn [true, false]) [.sub 1]).subs.getD c [] →
+      ((run (St.initEn [true, false]) [.sub 1]).enabled.getD c false = false ∨
+        ∀ x ∈ [(⟨1, 9⟩ : Smp), ⟨0, 8⟩], x.chan ≠ c) := by
+  refine ⟨_, rfl, ?_⟩
+  intro c hc
+  have : c = 1 := by
+    match c with
+    | 0 => simp [run, step, subAt, St.initEn] at hc
+    | 1 => rfl
+    | c + 2 => simp [run, step, subAt, St.initEn] at hc
+  subst this
+  exact Or.inl (by decide)
+
+example : ∀ x ∈ [(⟨1, 9⟩ : Smp)],
+    x.chan < (run (St.initEn [true, false]) [.sub 1]).enabled.length ∧
+      ((run (St.initEn [true, false]) [.sub 1]).subs.getD x.chan [] = [] ∨
+        (run (St.initEn [true, false]) [.sub 1]).enabled.getD x.chan false = false) := by decide
+
+example : ∀ x ∈ [(⟨0, 1⟩ : Smp)] ++ [⟨1, 2⟩, ⟨0, 3⟩], x.chan < 2 := by decide
+
+/-- `stream_sub(-1)` on a 3-channel device subscribes to channel 2; `stream_sub(-4)` raises -/
+example : (run (St.init 3) [.subNeg 0]).subs = [[], [], [0]] ∧ step (St.init 3) (.subNeg 3) = .error .indexError := by
+  decide
+
+/-- `iter_consumes`, `drain`: a started, live stream with two well-formed frames waiting -/
+example : let s : Sys := sysRun (Sys.init [true]) [.sub 0, .start, .arrive (.frame 0 [⟨0, 1⟩]), .arrive (.frame 1 [⟨0, 2⟩])]
+    s.started = true ∧ s.fan.dead = false ∧ s.q = [.frame 0 [⟨0, 1⟩], .frame 1 [⟨0, 2⟩]] ∧
+    (∀ f ∈ s.q, f.wfFrame s.fan.enabled.length = true) ∧
+    received (sysRun s (List.replicate s.q.length .iter)).fan 0 = [1, 2] := by decide +kernel
+
+/-- `end_to_end_delivery`: one frame is waiting in `_q_stream` when the queue subscribes (backlog), one
+    arrives later; the stream was started before; both are delivered, in order, once -/
+example : let pre : List Ev := [.start, .arrive (.frame 0 [⟨0, 7⟩])]
+    let post : List Ev := [.iter, .arrive (.frame 0 [⟨0, 8⟩, ⟨0, 9⟩]), .iter, .iter]
+    (sysRun (Sys.init [true]) pre).fan.dead = false ∧
+    (sysRun (Sys.init [true]) pre).fan.enabled.getD 0 false = true ∧
+    (∀ e ∈ post, e = .iter ∨ ∃ f, e = .arrive f) ∧
+    (∀ f ∈ (sysRun (Sys.init [true]) pre).q ++ arrived post, f.wfFrame [true].length = true) ∧
+    (sysRun (Sys.init [true]) (pre ++ [.sub 0] ++ post)).q = [] ∧
+    received (sysRun (Sys.init [true]) (pre ++ [.sub 0] ++ post)).fan 0 = [7, 8, 9] := by
+  refine ⟨by decide, by decide, ?_, by decide, by decide, by decide +kernel⟩
+  intro e he
+  simp only [List.mem_cons, List.mem_nil_iff, or_false] at he
+  rcases he with rfl | rfl | rfl | rfl
+  · exact Or.inl rfl
+  · exact Or.inr ⟨_, rfl⟩
+  · exact Or.inl rfl
+  · exact Or.inl rfl
+
+/-- `end_to_end_wire`: a device with two UINT8 channels (type 2, vdim 1, no metadata), channel 1 enabled;
+    the reassembly delivers an ACK frame, a STREAM frame with samples (ch1: 42, ch0: 7), a STREAM frame
+    with sample (ch1: 43); the STREAM frames decode; the subscriber of channel 1 gets positions 0 and 2 -/
+def exLayout : List Stream.Chan := [⟨2, 1, 0⟩, ⟨2, 1, 0⟩]
+def exFrs : List Serial.Frame :=
+  [⟨Gen.Ids.idACK, [0, 0, 0, 0]⟩, ⟨Gen.Ids.idSTREAM, [0, 1, 42, 0, 7]⟩, ⟨Gen.Ids.idSTREAM, [0, 1, 43]⟩]
+
+example : arrivals exLayout [] true exFrs = [.frame 0 [⟨1, 0⟩, ⟨0, 1⟩], .frame 0 [⟨1, 2⟩]] ∧
+    (∀ fr ∈ exFrs, fr.fid = Gen.Ids.idSTREAM → ∃ r, Stream.frameStreamDecode exLayout [] fr = .ok r) ∧
+    (samplesOfFrames exLayout [] (exFrs.filter (fun f => f.fid = Gen.Ids.idSTREAM))).map (·.data)
+      = [[.int 42], [.int 7], [.int 43]] := by
+  refine ⟨by decide +kernel, ?_, by decide +kernel⟩
+  intro fr hfr hid
+  simp only [exFrs, List.mem_cons, List.mem_nil_iff, or_false] at hfr
+  rcases hfr with rfl | rfl | rfl
+  · exact absurd hid (by decide)
+  · exact exists_ok_of (by decide +kernel)
+  · exact exists_ok_of (by decide +kernel)
+
+example : let pre : List Ev := [.start]
+    let post : List Ev := [.arrive (.frame 0 [⟨1, 0⟩, ⟨0, 1⟩]), .arrive (.frame 0 [⟨1, 2⟩]), .iter, .iter]
+    arrived post = arrivals exLayout [] true exFrs ∧
+    (sysRun (Sys.init [false, true]) pre).q = [] ∧
+    (sysRun (Sys.init [false, true]) (pre ++ [.sub 1] ++ post)).q = [] ∧
+    received (sysRun (Sys.init [false, true]) (pre ++ [.sub 1] ++ post)).fan 0 = [0, 2] := by
   decide +kernel
 
 end Nxs.C08
